@@ -66,6 +66,24 @@ class Impl:
         self.log = []
 
     def listener(self, lid):
+        """odd listeners are plain functions; even ones are bound methods, looked up afresh on every
+        use (equal but not identical objects, as `obj.method` is in user code)"""
+        if lid % 2 == 0:
+            return self._holder(lid).on_event
+        return self._function(lid)
+
+    def _holder(self, lid):
+        key = ('holder', lid)
+        if key not in self.cbs:
+            fn = self._function(lid)
+
+            class Holder(object):
+                def on_event(self, payload):
+                    return fn(payload)
+            self.cbs[key] = Holder()
+        return self.cbs[key]
+
+    def _function(self, lid):
         if lid in self.cbs:
             return self.cbs[lid]
 
